@@ -6,6 +6,7 @@
 import Valida.Rule
 import ValidaSpec.Walk
 import ValidaProofs.Lemmas.Basic
+import ValidaProofs.Lemmas.DataGuard
 import ValidaProofs.Lemmas.PyEq
 namespace ValidaProofs.C07C
 open Valida ValidaGen ValidaSpec
@@ -252,7 +253,7 @@ theorem rel_ofPy (x y : PyVal) (h : Rel P x y) (d : DataV) (hd : DataV.ofPy x = 
     obtain ⟨ys, rfl, h⟩ := h
     have hl := relL_length xs ys h
     cases xs with
-    | nil => simp [DataV.ofPy] at hd
+    | nil => simp [DataV.ofPy_list] at hd
     | cons x xs =>
       cases ys with
       | nil => simp at hl
@@ -263,12 +264,12 @@ theorem rel_ofPy (x y : PyVal) (h : Rel P x y) (d : DataV) (hd : DataV.ofPy x = 
     have hl := congrArg List.length (relD_keys kvs kvs' h)
     simp only [List.length_map] at hl
     cases kvs with
-    | nil => simp [DataV.ofPy] at hd
+    | nil => simp [DataV.ofPy_dict] at hd
     | cons x xs =>
       cases kvs' with
       | nil => simp at hl
       | cons y ys => exact ⟨_, rfl⟩
-  | _ => simp [DataV.ofPy] at hd
+  | _ => cases hd
 
 /-! ### reading -/
 
